@@ -396,7 +396,25 @@ func lwStandard(c *ctx, r *Report, judge func(cs Case) (string, string), per int
 			return err
 		}
 	}
-	r.Notes = append(r.Notes, fmt.Sprintf("lintwf tie (Linter.Lint vs AL.Rules.lint: parser + matrix, credentials, job-needs, env-var, id, glob, permissions, if-cond, sorted): %d sources", r.Evaluations-n0))
+	// the CRON check: specs planted at `cron:` and in new `schedule:` sections (own generator, own random source)
+	{
+		rngC := rand.New(rand.NewSource(c.seed*31 + 13))
+		all := append([]string{}, lwCronDirected...)
+		for _, name := range []string{"a.yml", "b.yml", "c.yml"} {
+			all = append(all, cronMutants(wfBases[name], rngC, 0)...)
+		}
+		k := per / 10
+		if k < 2 {
+			k = 2
+		}
+		for _, s := range corpus {
+			all = append(all, cronMutants(s, rngC, k)...)
+		}
+		if err := lwTie(c, r, all, "CRON specs planted in a base workflow / corpus file", judge); err != nil {
+			return err
+		}
+	}
+	r.Notes = append(r.Notes, fmt.Sprintf("lintwf tie (Linter.Lint vs AL.Rules.lint: parser + matrix, credentials, job-needs, env-var, id, glob, permissions, if-cond, events incl. the CRON check, …, sorted): %d sources", r.Evaluations-n0))
 	return nil
 }
 
